@@ -157,6 +157,19 @@ pub fn ranked_key(s: &Schedule) -> String {
             }
             k.push(')');
         }
+        // hidden state of the transition: which (empty) cycle slot a new one-vehicle cycle would take
+        let tr = s.next_day_transition_of(vt);
+        if let Some(t) = s.get_tours().values().next() {
+            let before: Vec<usize> = tr.cycles_iter().map(|c| c.len()).collect();
+            let probe = std::panic::catch_unwind(std::panic::AssertUnwindSafe(|| tr.add_vehicle_to_own_cycle(VehicleIdx::Vehicle(u16::MAX), t, &nw)));
+            match probe {
+                Ok(t2) => {
+                    let slot = t2.cycles_iter().enumerate().find(|(i, c)| before.get(*i) != Some(&c.len())).map(|(i, _)| i as i64).unwrap_or(-1);
+                    let _ = write!(k, "slot{}", slot);
+                }
+                Err(_) => k.push_str("slot!"),
+            }
+        }
         k.push(';');
     }
     k
